@@ -523,6 +523,166 @@ def rule_cmp_normalise(ctx: Ctx) -> None:
                      func=q)
 
 
+def _relations(n: int):
+    """all reflexive symmetric relations on range(n) (the comparison need not be transitive: `ged` is bounded, `direct` is per register)"""
+    import itertools
+    pairs = [(i, j) for i in range(n) for j in range(i + 1, n)]
+    for bits in itertools.product((False, True), repeat=len(pairs)):
+        yield {p for p, b in zip(pairs, bits) if b}
+
+
+def rule_dedup_model(ctx: Ctx) -> None:
+    """dedup.model: remove_redundant_circuits and CircuitStorage.add_new_circuit / is_redundant interpreted (gqsa/minterp.py) for every
+    list of up to four circuits and every reflexive symmetric "reported equal" relation among them (the comparators answer from the
+    relation; copy / unwrap / remove_identity are neutral in the model).  Afterwards the kept circuits are input circuits in input order,
+    and every circuit that was dropped or refused is reported equal to one that is kept — the clause of the property: a circuit that is
+    inequivalent to everything kept is never discarded."""
+    from .. import minterp
+    repo = ctx.repo
+    m = repo.module(CMP)
+    NEUTRAL = {"unwrap_nodes", "remove_identity"}
+    COMPARATORS = {"circuit_is_isomorphic", "compare_circuits", "check_redundant_circuit", "direct"}
+
+    def is_circ(v):
+        return isinstance(v, tuple) and len(v) == 2 and v[0] == "circuit"
+
+    def make_oracle(rel, inline):
+        def oracle(c, it):
+            a = call_attr(c)
+            if isinstance(c.func, ast.Attribute) and a in NEUTRAL | {"copy"}:
+                try:
+                    recv = it.ev(c.func.value)
+                except minterp.Unmodelled:
+                    return NotImplemented
+                if is_circ(recv):
+                    return recv if a == "copy" else None
+                return NotImplemented
+            fn_v = None
+            if isinstance(c.func, ast.Name) and c.func.id in it.env:
+                fn_v = it.env[c.func.id]
+            elif isinstance(c.func, ast.Attribute) and norm(c.func) in it.env:
+                fn_v = it.env[norm(c.func)]
+            if (a in COMPARATORS and not isinstance(c.func, ast.Attribute)) or (isinstance(c.func, ast.Name) and c.func.id in COMPARATORS) or fn_v == "<comparator>":
+                args = [it.ev(x) for x in c.args[:2]]
+                if len(args) != 2 or not all(is_circ(x) for x in args):
+                    raise minterp.Unmodelled(f"comparator call `{norm(c)[:50]}` on something that is not two circuits")
+                i, j = args[0][1], args[1][1]
+                return i == j or (min(i, j), max(i, j)) in rel
+            if isinstance(c.func, ast.Attribute) and norm(c.func.value) == "self" and a in inline:
+                f = inline[a]
+                ps = func_params(f)[1:]
+                sub_env = {k: v for k, v in it.env.items() if k.startswith("self.")}
+                for p_, x in zip(ps, c.args):
+                    sub_env[p_] = it.ev(x)
+                sub = minterp.Interp(sub_env, oracle, it.budget)
+                try:
+                    sub.run(f.body)
+                    out = None
+                except minterp.Return as r:
+                    out = r.value
+                for k, v in sub_env.items():
+                    if k.startswith("self."):
+                        it.env[k] = v
+                return out
+            return NotImplemented
+        return oracle
+
+    # --- remove_redundant_circuits
+    fn = repo.anchor(CMP, "remove_redundant_circuits")
+    ctx.touch(m, fn)
+    P = func_params(fn)[0]
+    n_models = 0
+    bad = None
+    for n in range(0, 5):
+        for rel in _relations(n):
+            n_models += 1
+            env = {P: [("circuit", k) for k in range(n)]}
+            it = minterp.Interp(env, make_oracle(rel, {}))
+            try:
+                it.run(fn.body)
+                out = None
+            except minterp.Return as r:
+                out = r.value
+            except minterp.Unmodelled as e:
+                raise AnalysisError(f"remove_redundant_circuits: a construct the list model does not cover: {e}")
+            except minterp.ModelError as e:
+                bad = f"fails ({e})"
+                break
+            if not isinstance(out, list) or not all(is_circ(x) for x in out):
+                bad = "does not return a list of circuits"
+                break
+            kept = [x[1] for x in out]
+            if kept != sorted(set(kept)) or any(k >= n for k in kept):
+                bad = f"returns circuits {kept}: not a sub-list of its input in input order"
+                break
+            lost = [k for k in range(n) if k not in kept and not any((min(k, q), max(k, q)) in rel for q in kept)]
+            if lost:
+                bad = f"drops circuit {lost[0]} although it is not reported equal to any circuit kept ({kept}); reported-equal pairs {sorted(rel)}"
+                break
+        if bad:
+            break
+    if bad:
+        ctx.fail("dedup.model", m, fn, f"remove_redundant_circuits, list of {n} circuits: {bad}", func="remove_redundant_circuits",
+                 construct="remove_redundant_circuits: wrong in the list model")
+    else:
+        ctx.ok("dedup.model", m, fn, what=f"{n_models} (list, relation) models up to 4 circuits: only circuits reported equal to a kept one are dropped")
+
+    # --- CircuitStorage
+    ci = repo.cls("CircuitStorage", CMP)
+    ms = ci.methods()
+    add = ms.get("add_new_circuit")
+    if add is None:
+        raise AnalysisError("CircuitStorage.add_new_circuit missing")
+    ctx.touch(m, add)
+    inline = {k: v for k, v in ms.items() if k not in ("__init__", "add_new_circuit")}
+    bad = None
+    n_models = 0
+    ap = func_params(add)[1]
+    for disabled in (False, True):
+        for n in range(0, 5):
+            for rel in _relations(n):
+                n_models += 1
+                env = {"self.circuit_list": [], "self.disable_circuit_comparison": disabled, "self._check_func": "<comparator>"}
+                answers = []
+                try:
+                    for k in range(n):
+                        env[ap] = ("circuit", k)
+                        it = minterp.Interp(env, make_oracle(rel, inline))
+                        try:
+                            it.run(add.body)
+                            answers.append(None)
+                        except minterp.Return as r:
+                            answers.append(r.value)
+                except minterp.Unmodelled as e:
+                    raise AnalysisError(f"CircuitStorage.add_new_circuit: a construct the list model does not cover: {e}")
+                except minterp.ModelError as e:
+                    bad = f"fails ({e})"
+                    break
+                store = env["self.circuit_list"]
+                if not isinstance(store, list) or not all(is_circ(x) for x in store):
+                    raise AnalysisError("CircuitStorage: circuit_list does not hold circuits in the model")
+                kept = [x[1] for x in store]
+                if kept != sorted(set(kept)):
+                    bad = f"stores {kept}: not the offered circuits in the order offered, each at most once"
+                    break
+                if disabled and kept != list(range(n)):
+                    bad = f"with comparison disabled it stores {kept} of {n} offered circuits"
+                    break
+                lost = [k for k in range(n) if k not in kept and not any((min(k, q), max(k, q)) in rel for q in kept if q < k)]
+                if lost:
+                    bad = f"refuses circuit {lost[0]} although it is not reported equal to any circuit stored before it ({[q for q in kept if q < lost[0]]}); reported-equal pairs {sorted(rel)}"
+                    break
+            if bad:
+                break
+        if bad:
+            break
+    if bad:
+        ctx.fail("dedup.model", m, add, f"CircuitStorage.add_new_circuit, {n} circuits offered in turn: {bad}", func="CircuitStorage.add_new_circuit",
+                 construct="CircuitStorage: wrong in the list model")
+    else:
+        ctx.ok("dedup.model", m, add, what=f"{n_models} (sequence, relation, switch) models: a circuit is refused only if reported equal to a stored one")
+
+
 def rule_ged_zero(ctx: Ctx) -> None:
     """ged.zero: the graph-edit-distance comparator answers "same circuit" exactly when the distance it obtained *is the number 0*.
     networkx returns None when every edit path exceeds the upper bound (and the optimiser's generator may yield nothing), so a
@@ -574,6 +734,7 @@ def run(ctx: Ctx) -> None:
     rule_cmp_decision(ctx)
     rule_cmp_walk_edge(ctx)
     rule_cmp_normalise(ctx)
+    rule_dedup_model(ctx)
     ctx.floor("cmp.fields", 10)
     ctx.floor("cmp.normalise", 5)
 
@@ -591,6 +752,10 @@ def _edit_direct_zip(src: str) -> str:
 
 
 KNOCKOUTS = [
+    Knockout("redundant-filter-keeps-only-duplicates", CMP, sub_once("            if not check_isomorphic:\n                new_circuit_list.append(new_circuit)", "            if check_isomorphic:\n                new_circuit_list.append(new_circuit)"), "dedup.model", "drops circuit"),
+    Knockout("redundant-filter-drops-on-any-difference", CMP, sub_once("                if circuit_is_isomorphic(current_circuit, to_add_circuit):\n                    check_isomorphic = True", "                if not circuit_is_isomorphic(current_circuit, to_add_circuit):\n                    check_isomorphic = True"), "dedup.model", "drops circuit"),
+    Knockout("storage-refuses-on-any-difference", CMP, sub_once("                if f(circuit, new_circuit):\n                    return True", "                if not f(circuit, new_circuit):\n                    return True"), "dedup.model", "refuses circuit"),
+    Knockout("storage-redundancy-answer-inverted", CMP, sub_once("        if self.is_redundant(new_circuit):\n            return False", "        if not self.is_redundant(new_circuit):\n            return False"), "dedup.model", "refuses circuit"),
     Knockout("isomorphism-replaced-by-subgraph-match", CMP, sub_once("    return is_isomorphic(\n        circuit1.dag, circuit2.dag, node_match=node_match, edge_match=edge_match\n    )", "    from networkx.algorithms.isomorphism import MultiDiGraphMatcher\n    return MultiDiGraphMatcher(circuit1.dag, circuit2.dag, node_match=node_match, edge_match=edge_match).subgraph_is_isomorphic()"), "cmp.multiedge", "not a full isomorphism"),
     Knockout("direct-walk-over-zip", CMP, _edit_direct_zip, "zip.truncation", "direct"),
     Knockout("direct-params-compared-with-or", CMP, sub_once("                    and tuple(op1.params) == tuple(op2.params)\n", "                    or tuple(op1.params) == tuple(op2.params)\n"), "cmp.decision", "direct() step"),
